@@ -163,7 +163,11 @@ class C03(Check):
         "against the current source; false at the pinned commit, see C03_refuted_when_false)",
     ]
     EXTRA_TRUSTED = ["harness/internal/hdoracle (independent BIP32 + address encoders; secp256k1 group operations from btcec)",
-                     "lib/extract_c03.py (regex reading of the watch-only test of nextAddresses / extendAddresses)"]
+                     "lib/extract_c03.py: the three source facts are read off the shape of scoped_manager.go / manager.go (original and "
+                     "syntactically equivalent shapes); a fact whose shape is not recognised is determined by running its witness "
+                     "scenarios on the waddrmgr built from the repository (harness/cmd/extract-c03: extend x {locked,unlocked} x "
+                     "{seed,imported} account; first account of a new custom scope; DeriveFromKeyPathCache on a cached imported "
+                     "account); evidence field facts_source says which path ran"]
     PARTIAL_CLAUSES = [
         "'hierarchical derivation from the wallet's seed yields ...' in bytes (HMAC-SHA512, secp256k1, legacy hardened rule): exercised "
         "through the oracle on every returned key, not a Coq theorem",
@@ -180,6 +184,19 @@ class C03(Check):
     def sample(self, c):
         return dict(seed=c["in"]["seed"], ops=c["in"]["ops"][:12], n_ops=len(c["in"]["ops"]), tags=c.get("tags"),
                     oracle=c.get("oracle"), last_result=c["obs"][-1] if c["obs"] else None)
+
+    def extra_coverage(self, cases):
+        # which path of lib/extract_c03.py produced the regenerated facts of this run
+        src, detail, vals = "unknown", "", {}
+        try:
+            txt = open(os.path.join(COQ, "Generated", "AddrFacts.v")).read()
+            m = re.search(r"\(\* facts source: (\w+)(.*?)\*\)", txt, re.S)
+            if m:
+                src, detail = m.group(1), re.sub(r"\s+", " ", m.group(2)).strip()
+            vals = dict(re.findall(r"Definition (\w+) : bool := (true|false)\.", txt))
+        except OSError:
+            pass
+        return dict(facts_source=src, facts_source_detail=detail, facts=vals)
 
     def site_of(self, case, kind):
         return (case.get("sites") or {}).get(kind, case.get("site", "*"))
